@@ -52,8 +52,7 @@ package transformations
 
 // d is a private copy of input (the caller passes []byte(data)). As long as nothing has been decoded, c == i and
 // every store writes a byte onto itself, so d still equals input everywhere.
-// NOTE: loop 3 is `for k := range n`; its header phi is "rangeint.iter", which the contract language cannot name,
-// so the bounds 0 <= k < n needed by index/input[start+k] and index/d[c+k] cannot be stated.
+// Loop 3 is `for k := range n` (loop variable: rangeiter).
 //@ func inplaceUniDecode props C14,C07
 //@   requires len(d) == len(input)
 //@   requires 0 <= pos && pos <= len(input)
@@ -67,7 +66,9 @@ package transformations
 //@     invariant start < i && i <= len(input)
 //@     decreases len(input) - i
 //@   loop 3
+//@     invariant 0 <= rangeiter && rangeiter < n
 //@     invariant !changed ==> (forall m int :: 0 <= m && m < len(input) ==> d[m] == input[m])
+//@     decreases n - rangeiter
 
 //@ func isodigit props C14,C07
 //@   ensures result == (x >= '0' && x <= '7')
@@ -288,31 +289,38 @@ package transformations
 
 //@ func stripWindowsADS props C14,C07
 
-// ---- units on which the change-flag clause does NOT hold (genuine defects, see report)
+// ---- units whose flag clause used to fail (defects found by this contract, since fixed: the flag now compares contents)
 
-// htmlEntityDecode compares lengths, but html.UnescapeString can rewrite without changing the length:
-// "&#0" -> U+FFFD (3 bytes), "&nLl;" -> U+22D8 U+0338 (5 bytes), "&nvap;" -> U+224D U+20D2 (6 bytes).
+// Regression inputs: a length comparison misses "&#0" -> U+FFFD (3 bytes), "&nLl;" -> U+22D8 U+0338 (5 bytes),
+// "&nvap;" -> U+224D U+20D2 (6 bytes).
 //@ func htmlEntityDecode props C14,C07
 //@   ensures flag: !result1 ==> result0 == data
 //@   ensures isnil(result2)
 
-// removeWhitespace sets the flag only when the mapping drops a rune, but strings.Map also rewrites every invalid UTF-8
-// byte to U+FFFD: "\xff" -> "\xef\xbf\xbd" with changed == false.
+// Regression input: strings.Map rewrites every invalid UTF-8 byte to U+FFFD without the mapping dropping a rune:
+// "\xff" -> "\xef\xbf\xbd".
 //@ func removeWhitespace props C14,C07
 //@   ensures flag: !result1 ==> result0 == data
 //@   ensures isnil(result2)
 
 //@ func removeWhitespace$1 props C14,C07
 
-// ---- units blocked by the engine: `for i := range n` loops (header phi "rangeint.iter" cannot be named in an
-// invariant, so neither 0 <= i < n nor "!changed ==> d.content == input[0:i]" can be stated)
+// ---- `for i := range n` loops: the loop variable is named rangeiter in invariants
 
 //@ func urlEncode props C14,C07
 //@   ensures flag: !result1 ==> result0 == data
 //@   ensures isnil(result2)
 
+// While nothing has been encoded, the builder holds exactly input[0:i].
 //@ func doURLEncode props C14,C07
 //@   ensures flag: !result1 ==> result0 == input
+//@   loop 1
+//@     invariant 0 <= rangeiter && rangeiter < len(input)
+//@     invariant !changed ==> len(d.content) == rangeiter && (forall k int :: 0 <= k && k < rangeiter ==> d.content[k] == input[k])
+//@     decreases len(input) - rangeiter
 
 //@ func doBase64decode props C14,C07
 //@   requires tableLen: len(base64DecMap) == 128
+//@   loop 1
+//@     invariant 0 <= rangeiter && rangeiter < len(src)
+//@     decreases len(src) - rangeiter
